@@ -2,6 +2,7 @@
 from ..paths import PathEnumerator
 from ..guards import fv
 from ..terms import TermBuilder, fmt, mk, const, subterms, elem_of, erase_param_names, swap_self_other, linear_eq, linear
+from ..terms import callee_is as _nm
 from .common import (SELF, self_field, methods_of, has_self_receiver, all_writes, rng_fields, config_fields, symmetric_guards,
                      fields_mentioned, INTERIOR_MUT, loop_exits_only_on_exhaustion)
 
@@ -51,9 +52,9 @@ def classify_write(adt, field, w, ctx):
             # whole-field replacement
             if v[0] == "op" and v[1] == "BitOr":
                 return "or", "bs = &a | &b"
-            if v[0] == "call" and v[1].endswith("from_elem"):
+            if v[0] == "call" and _nm(v[1], "from_elem"):
                 return "reset", "vec![zero; len]"
-            if v[0] == "call" and v[1].endswith("collect"):
+            if v[0] == "call" and _nm(v[1], "collect"):
                 st = v[2][0]
                 e = erase_param_names(elem_of(st))
                 return classify_cell_update(e), fmt(e)
@@ -365,7 +366,7 @@ def union_transfer_rules(ctx):
                 if S_[0] == "map" and S_[2][0] == "closure":
                     R_ = S_[1]
                     lo = hi_excl = None
-                    if R_[0] == "call" and R_[1].endswith("RangeInclusive::new") and len(R_[2]) == 2:
+                    if R_[0] == "call" and _nm(R_[1], "RangeInclusive::new") and len(R_[2]) == 2:
                         lo, hi_excl = R_[2][0], mk("Add", R_[2][1], const(1))
                     elif R_[0] == "adt" and R_[1] == "std::ops::Range":
                         dd = dict(R_[3])
@@ -407,7 +408,7 @@ def union_transfer_rules(ctx):
                         continue
                     c_, tr_ = ec
                     subs_ = list(subterms(c_))
-                    if any(z[0] == "call" and z[1].endswith("insert_internal") for z in subs_):
+                    if any(z[0] == "call" and _nm(z[1], "insert_internal") for z in subs_):
                         continue                                         # the failing re-insertion
                     if tr_ is False and any(z[0] == "index" and z[1] == ("field", otherp, "is_shifted") for z in subs_) or \
                             (tr_ is False and c_[0] == "call" and c_[1].rsplit("::", 1)[-1] in ("contains", "get", "index") and c_[2] and c_[2][0] == ("field", otherp, "is_shifted")):
